@@ -1342,7 +1342,7 @@ def r5_13(ctx):
         for c in walk_local(q.node):
             if isinstance(c, ast.Call) and norm(expand_alias(c.func, al)) in ("Style.combine", "combine") and c.args:
                 n += 1
-                e = _inl(c.args[0], sd)
+                e = _inl(c.args[0], {k_: v_ for k_, v_ in sd.items() if not isinstance(v_, (ast.List, ast.Dict, ast.Set, ast.ListComp, ast.DictComp)) and k_ not in ("stack", "style_map")})
                 where = f"{m.relpath}:{c.lineno}"
                 dedup = [w for w in ast.walk(e) if isinstance(w, ast.Call) and norm(w.func) in ("dict.fromkeys", "set", "frozenset", "OrderedDict.fromkeys")]
                 if dedup:
